@@ -295,7 +295,37 @@ advertised_case!(c02_advertised_partition_two_partials_head3, Some(3), 2);
 advertised_case!(c02_advertised_partition_two_partials_head5, Some(5), 2);
 advertised_case!(c02_advertised_partition_head6, Some(6), 1);
 fn advertised_state_partitions_versions(head: Option<u64>, partials: usize) {
-    let pre = any_pre_with_head(partials, head);
+    advertised_check(any_pre_with_head(partials, head));
+}
+// generate_sync_for_actor treats the gap set and the partial records in two independent passes:
+// the quick tier checks them one at a time (gaps only / one partial, no gaps), the thorough tier
+// together (the cases above)
+#[kani::proof]
+fn c02_advertised_gaps_only_head2() {
+    advertised_check(any_pre_with_head(0, Some(2)));
+}
+#[kani::proof]
+fn c02_advertised_gaps_only_head4() {
+    advertised_check(any_pre_with_head(0, Some(4)));
+}
+fn advertised_one_partial_no_gaps(head: u64) {
+    let version: u64 = kani::any();
+    kani::assume(version >= 1 && version <= head);
+    let last_seq: u64 = kani::any();
+    kani::assume(last_seq <= M);
+    let seq_mask: u32 = kani::any();
+    kani::assume(seq_mask != 0 && seq_mask & !bits(0, last_seq) == 0);
+    advertised_check(Pre { max: head, need_mask: 0, partials: [Some(PartialSpec { version, seq_mask, last_seq }), None] });
+}
+#[kani::proof]
+fn c02_advertised_one_partial_no_gaps_head2() {
+    advertised_one_partial_no_gaps(2);
+}
+#[kani::proof]
+fn c02_advertised_one_partial_no_gaps_head4() {
+    advertised_one_partial_no_gaps(4);
+}
+fn advertised_check(pre: Pre) {
     let (bv, _conn) = build(&pre);
     let mut state = SyncStateV1::default();
     generate_sync_for_actor(&mut state, ACTOR, &bv);
